@@ -348,8 +348,19 @@ def canon_resp(r):
   return r
 
 
+def make_runner(backend, es_recycle=True):
+  """'ram' / 'sqlmem' / 'sqlfile': servicer + scripted Pythia object.  'local:<be>': the real PythiaServicer
+  (policy supporter, proto conversion of the decision) between the service and a scripted policy.
+  'hosted:<be>': additionally the real PartiallySerializableDesignerPolicy around a scripted designer."""
+  if backend.startswith('local:') or backend.startswith('hosted:'):
+    from vcheck import deploy
+    kind, be = backend.split(':', 1)
+    return deploy.Deployment('local', be, es_recycle=es_recycle, hosted=(kind == 'hosted')).runner()
+  return RealRunner(backend, es_recycle=es_recycle)
+
+
 def run_real(backend, reqs, snaps=False, es_recycle=True):
-  rr = RealRunner(backend, es_recycle=es_recycle)
+  rr = make_runner(backend, es_recycle=es_recycle)
   resps, snapl = [], []
   for r in reqs:
     resps.append(rr.step(r))
